@@ -1668,3 +1668,41 @@ func tautology(ds []map[string]bool) bool {
 	}
 	return false
 }
+
+// ReturnOnlyUnder: result idx of fn is a control-flow join; every incoming edge whose value matches pattern lies under
+// condition cond (at least one such edge exists). Unlike ReturnCase it says nothing about the other values taken
+// under cond (cond is one conjunct of the case).
+func (c *Ctx) ReturnOnlyUnder(fnSpec string, idx int, cond, pattern, desc string) {
+	role := fmt.Sprintf("retonly%d/%s", idx, cond)
+	cond, pattern = c.X(cond), c.X(pattern)
+	f := c.Fn(fnSpec)
+	if f == nil {
+		return
+	}
+	n := 0
+	for _, b := range f.Fn.Blocks {
+		ret, ok := b.Instrs[len(b.Instrs)-1].(*ssa.Return)
+		if !ok || idx >= len(ret.Results) {
+			continue
+		}
+		phi, ok := ret.Results[idx].(*ssa.Phi)
+		if !ok {
+			continue
+		}
+		for i, e := range phi.Edges {
+			if !ir.MatchAny(pattern, f.Term(e)) {
+				continue
+			}
+			n++
+			if ok, seen := condHolds(f, phi.Block().Preds[i], cond); !ok {
+				c.add("P", fnSpec, role, desc, report.Violated, fmt.Sprintf("result %s also on a path where %s is not established; in force: %s", pattern, cond, short(seen)), c.posOf(ret))
+				return
+			}
+		}
+	}
+	if n == 0 {
+		c.add("P", fnSpec, role, desc, report.Violated, "no joined result matching "+pattern, c.fnPos(f))
+		return
+	}
+	c.add("P", fnSpec, role, desc, report.OK, fmt.Sprintf("%d edge(s)", n), c.fnPos(f))
+}
